@@ -292,6 +292,38 @@ func C13(p *ir.Program, r *report.R) {
 		r.Check("K1", "consensus.LoadValidators/fallback", p.Pos(lv.Pos()), okFB, "a record without a set is resolved through its LastHeightChanged")
 	}
 
+	// ---- one positional notation for every number the UTXO store writes and reads -----------------------------------
+	// Sequence numbers are stored as text in base positionalNotation (36): every FormatInt/FormatUint/
+	// ParseInt/ParseUint of utxo/store.go names that constant as its base. A writer in base 10 and a reader
+	// in base 36 agree for 0..9 and part ways at the first restart after that.
+	{
+		nConv := 0
+		var bad []string
+		base := fmt.Sprint(c.ConstInt("utxo", "positionalNotation"))
+		for _, f := range p.Funcs {
+			if f.Pkg == nil || ir.RelPkg(f.Pkg.Pkg) != "utxo" || f.Blocks == nil || strings.HasSuffix(p.Pos(f.Pos()), "_test.go") {
+				continue
+			}
+			ir.Instrs(f, func(in ssa.Instruction) {
+				call, ok := in.(*ssa.Call)
+				if !ok {
+					return
+				}
+				switch ir.CalleeName(call) {
+				case "strconv.FormatInt", "strconv.FormatUint", "strconv.ParseInt", "strconv.ParseUint":
+					nConv++
+					if Arg(call, 1) != base {
+						bad = append(bad, p.InstrPos(in)+": "+ir.CalleeName(call)+" base "+Arg(call, 1))
+					}
+				case "strconv.Itoa", "strconv.Atoi":
+					nConv++
+					bad = append(bad, p.InstrPos(in)+": "+ir.CalleeName(call)+" (base 10)")
+				}
+			})
+		}
+		r.Check("K5", "utxo/store/one-positional-notation/writer~reader", "-", len(bad) == 0 && nConv >= 5, fmt.Sprintf("%d text/number conversions in utxo, all in base %s: %v", nConv, base, bad))
+	}
+
 	// ---- flat-state undo log (state/keyvalue.go) ---------------------------------------------
 	// In key/value storage mode a block's state writes are applied in place; a crash between the
 	// state commit and SaveBlock is undone from the undo log. Necessary shape:
